@@ -1,3 +1,170 @@
-import Frequenz.Model.Matryoshka
+/-
+C03 — Power manager target stays inside usable system bounds, history-free.
 
-theorem C03_placeholder : (1 : Nat) = 1 := rfl
+Property theorems only.  Model: `Frequenz.Model.Matryoshka` (hand-written sweep) over
+`Frequenz.Extracted.Bounds` (machine-translated from `_bounds.py` on every run).
+-/
+import Frequenz.Lemmas.Matryoshka
+import Frequenz.Lemmas.Bucket
+
+open Matryoshka BoundsLemmas
+
+/-- The quantifier's domain: inclusion bounds with `lower ≤ 0 ≤ upper` (or none) and an exclusion
+zone that contains zero (or none). -/
+def C03_InDomain (sb : SystemBounds) : Prop :=
+  (∀ b, sb.incl = some b → b.lower ≤ 0 ∧ 0 ≤ b.upper) ∧ ZoneOK sb.excl
+
+/-- "inside the system inclusion bounds (zero when there are none) and zero or outside the
+exclusion zone". -/
+def C03_Envelope (sb : SystemBounds) (t : Rat) : Prop :=
+  (match sb.incl with
+   | none => t = 0
+   | some b => b.lower ≤ t ∧ t ≤ b.upper) ∧ OutOrZero sb.excl t
+
+/-- Histories: an actor proposes (replacing its previous proposal), or old proposals are dropped. -/
+inductive C03_Op where
+  | propose (p : Proposal)
+  | drop (now : Rat)
+
+def C03_apply (maxAge : Rat) (b : List Proposal) : C03_Op → List Proposal
+  | .propose p => insertProposal b p
+  | .drop now => dropOld maxAge now b
+
+/-- The abstract meaning of a history: a map from actor key to its latest, unexpired proposal. -/
+def C03_specStep (maxAge : Rat) (m : Key → Option Proposal) : C03_Op → Key → Option Proposal
+  | .propose p => fun k => if k = p.key then some p else m k
+  | .drop now => fun k => (m k).filter (fun q => decide ¬ (now - q.created > maxAge))
+
+def C03_bucketOf (maxAge : Rat) (h : List C03_Op) : List Proposal := h.foldl (C03_apply maxAge) []
+def C03_liveMap (maxAge : Rat) (h : List C03_Op) : Key → Option Proposal :=
+  h.foldl (C03_specStep maxAge) (fun _ => none)
+
+/-- Envelope, for every list of proposals in *any* order (so in particular the sorted bucket). -/
+theorem C03_envelope (sb : SystemBounds) (hd : C03_InDomain sb) (ps : List Proposal) :
+    C03_Envelope sb (sweep sb ps).target := by
+  obtain ⟨hincl, hz⟩ := hd
+  -- frame of the sweep
+  have key : ∀ L U : Rat, L ≤ 0 ∧ 0 ≤ U → (initSt sb).lo = L → (initSt sb).hi = U →
+      L ≤ (sweep sb ps).target ∧ (sweep sb ps).target ≤ U ∧ OutOrZero (effExcl sb) (sweep sb ps).target := by
+    intro L U h0 hl hu
+    have hinit : Frame L U (effExcl sb) (initSt sb) := by
+      refine ⟨by rw [hl]; exact Rat.le_refl, by rw [hu]; exact Rat.le_refl, ?_, ?_, ?_⟩
+      · unfold initSt; split <;> exact h0.1
+      · unfold initSt; split <;> exact h0.2
+      · intro e _; left; unfold initSt; split <;> rfl
+    have := foldl_step_frame h0 ps (initSt sb) hinit
+    exact ⟨this.tlo, this.thi, this.out⟩
+  have hout : ∀ t, OutOrZero (effExcl sb) t → OutOrZero sb.excl t := by
+    intro t h e he
+    unfold effExcl at h
+    rw [he] at h
+    by_cases hne : e.lower ≠ 0 ∨ e.upper ≠ 0
+    · simp only [hne, if_true] at h; exact h e rfl
+    · right
+      have h1 : e.lower = 0 := by
+        by_cases h' : e.lower = 0
+        · exact h'
+        · exact absurd (Or.inl h') hne
+      have h2 : e.upper = 0 := by
+        by_cases h' : e.upper = 0
+        · exact h'
+        · exact absurd (Or.inr h') hne
+      unfold InZone; rw [h1, h2]; intro ⟨ha, hb⟩
+      grind
+  unfold C03_Envelope
+  cases hi : sb.incl with
+  | none =>
+    have := key 0 0 ⟨Rat.le_refl, Rat.le_refl⟩ (by unfold initSt; rw [hi]) (by unfold initSt; rw [hi])
+    exact ⟨Rat.le_antisymm this.2.1 this.1, hout _ this.2.2⟩
+  | some b =>
+    have := key b.lower b.upper (hincl b hi) (by unfold initSt; rw [hi]) (by unfold initSt; rw [hi])
+    exact ⟨⟨this.1, this.2.1⟩, hout _ this.2.2⟩
+
+/-- Every target the manager hands out satisfies the envelope of the bounds it was computed for —
+whatever the bucket contains and whatever happened before. -/
+theorem C03_manager_envelope (m : Mgr) (p : Option Proposal) (sb : SystemBounds) (must : Bool) (t : Rat)
+    (hd : C03_InDomain sb) (ht : (m.calc p sb must).2 = some t) : C03_Envelope sb t := by
+  unfold Mgr.calc at ht
+  split at ht
+  · simp at ht
+  · split at ht
+    · simp at ht
+    · split at ht
+      · simp only [Option.some.injEq] at ht; subst ht; exact C03_envelope sb hd _
+      · simp at ht
+
+/-- Order-freedom: the target is a function of the *set* of live proposals. -/
+theorem C03_order_free (sb : SystemBounds) (b1 b2 : List Proposal) (hp : b1.Perm b2)
+    (hk : KeysDistinct b1) : calcTarget sb b1 = calcTarget sb b2 := by
+  unfold calcTarget; rw [sortDesc_eq_of_perm hp hk]
+
+/-- The bucket refines the map "actor ↦ latest unexpired proposal", for every history. -/
+theorem C03_bucket_refines_map (maxAge : Rat) (h : List C03_Op) :
+    KeysDistinct (C03_bucketOf maxAge h) ∧
+    ∀ k, absBucket (C03_bucketOf maxAge h) k = C03_liveMap maxAge h k := by
+  unfold C03_bucketOf C03_liveMap
+  suffices H : ∀ (b : List Proposal) (m : Key → Option Proposal), KeysDistinct b →
+      (∀ k, absBucket b k = m k) →
+      KeysDistinct (h.foldl (C03_apply maxAge) b) ∧
+      ∀ k, absBucket (h.foldl (C03_apply maxAge) b) k = h.foldl (C03_specStep maxAge) m k by
+    exact H [] _ List.Pairwise.nil (fun _ => rfl)
+  induction h with
+  | nil => intro b m hd hm; exact ⟨hd, hm⟩
+  | cons op ops ih =>
+    intro b m hd hm
+    simp only [List.foldl_cons]
+    cases op with
+    | propose p =>
+      apply ih _ _ (keysDistinct_insert hd p)
+      intro k; simp only [C03_specStep]; rw [abs_insert, hm]
+    | drop now =>
+      apply ih _ _ (keysDistinct_dropOld hd maxAge now)
+      intro k; simp only [C03_specStep]; rw [abs_dropOld hd, hm]
+
+/-- History-freedom: two histories that leave the same latest-unexpired proposal per actor give
+the same target, under every system bounds. -/
+theorem C03_history_free (maxAge : Rat) (sb : SystemBounds) (h1 h2 : List C03_Op)
+    (hsame : ∀ k, C03_liveMap maxAge h1 k = C03_liveMap maxAge h2 k) :
+    calcTarget sb (C03_bucketOf maxAge h1) = calcTarget sb (C03_bucketOf maxAge h2) := by
+  obtain ⟨d1, a1⟩ := C03_bucket_refines_map maxAge h1
+  obtain ⟨d2, a2⟩ := C03_bucket_refines_map maxAge h2
+  apply C03_order_free sb _ _ _ d1
+  apply perm_of_abs_eq d1 d2
+  intro k; rw [a1, a2, hsame]
+
+/-- Expiry: after `drop_old_proposals(now)` exactly the proposals not older than `maxAge` remain. -/
+theorem C03_expiry (maxAge now : Rat) (b : List Proposal) (p : Proposal) :
+    p ∈ dropOld maxAge now b ↔ p ∈ b ∧ now - p.created ≤ maxAge := by
+  unfold dropOld
+  simp [List.mem_filter, Rat.not_lt]
+
+/-- The full statement of C03 on the model. -/
+def C03_statement : Prop :=
+  (∀ (m : Mgr) (p : Option Proposal) (sb : SystemBounds) (must : Bool) (t : Rat),
+      C03_InDomain sb → (m.calc p sb must).2 = some t → C03_Envelope sb t) ∧
+  (∀ (maxAge : Rat) (sb : SystemBounds) (h1 h2 : List C03_Op),
+      (∀ k, C03_liveMap maxAge h1 k = C03_liveMap maxAge h2 k) →
+      calcTarget sb (C03_bucketOf maxAge h1) = calcTarget sb (C03_bucketOf maxAge h2)) ∧
+  (∀ (maxAge now : Rat) (b : List Proposal) (p : Proposal),
+      p ∈ dropOld maxAge now b ↔ p ∈ b ∧ now - p.created ≤ maxAge)
+
+theorem C03_full : C03_statement :=
+  ⟨C03_manager_envelope, C03_history_free, C03_expiry⟩
+
+/-! Non-vacuity: a concrete in-domain system bounds with a cutting exclusion zone, two histories
+with different orders/replacements and the same live map, and a non-trivial target. -/
+
+def C03_exSb : SystemBounds := { incl := some ⟨-100, 100⟩, excl := some ⟨-10, 10⟩ }
+def C03_exP1 : Proposal := { prio := 2, src := "a", pref := some 5, lo := some (-50), hi := some 50, created := 0 }
+def C03_exP2 : Proposal := { prio := 1, src := "b", pref := some 70, lo := none, hi := none, created := 1 }
+def C03_exP1old : Proposal := { C03_exP1 with pref := some 90, created := -5 }
+
+example : C03_InDomain C03_exSb := by
+  refine ⟨?_, ?_⟩
+  · intro b hb; cases hb; decide
+  · intro e he; cases he; decide
+
+example : calcTarget C03_exSb (C03_bucketOf 60 [.propose C03_exP1old, .propose C03_exP2, .propose C03_exP1]) = 50 := by
+  decide +kernel
+example : calcTarget C03_exSb (C03_bucketOf 60 [.propose C03_exP2, .propose C03_exP1]) = 50 := by
+  decide +kernel
